@@ -1,5 +1,7 @@
 mod checks;
 mod runner;
+mod sim;
+mod simtest;
 
 use runner::{run_check, RunArgs, Tier};
 use std::path::PathBuf;
@@ -15,6 +17,9 @@ fn main() {
         usage();
     }
     let id = args[1].clone();
+    if id == "simtest" {
+        std::process::exit(simtest::run());
+    }
     if id == "__child" {
         // child-process mode for crash-injection checks: dverif __child <module> <spec-file>
         let code = checks::child_dispatch(&args[2], &args[3]);
